@@ -311,6 +311,23 @@ def run(chk, tier):
     guards = set()
     n_slots = 0
     texts = {}
+    slot_shapes, slot_info = {}, {}
+
+    def display_args(txt):
+        """top-level `Argument::new_display(...)` items of a format's argument array"""
+        out_, i_ = [], 0
+        tag = "Argument::new_display("
+        while True:
+            j_ = txt.find(tag, i_)
+            if j_ < 0:
+                break
+            k_, depth_ = j_ + len(tag), 1
+            while k_ < len(txt) and depth_:
+                depth_ += 1 if txt[k_] == "(" else -1 if txt[k_] == ")" else 0
+                k_ += 1
+            out_.append(txt[j_ + len(tag):k_ - 1])
+            i_ = k_
+        return out_
     for b_ in builders:
         bname = re.search(r"traits::(\w+) as", b_.path).group(1)
         fields = field_names(TR + bname, bname)
@@ -324,7 +341,7 @@ def run(chk, tier):
                 texts.setdefault(bname, []).append((None, rr))
                 continue
             pieces = [x[1:-1] for x in re.findall(r"'(?:[^'\\]|\\.)*'|\"(?:[^\"\\]|\\.)*\"", m_.group(1))]
-            args = re.findall(r"Argument::new_display\(((?:[^()]|\((?:[^()]|\((?:[^()]|\([^()]*\))*\))*\))*)\)", m_.group(2))
+            args = display_args(m_.group(2))
             order = []
             for k_, a_ in enumerate(args):
                 fm = re.search(r"s\.0\.0\.(\d+)", a_)
@@ -341,11 +358,17 @@ def run(chk, tier):
                     guards.add(helper.group(1))
                 if after.startswith(POSTFIX):
                     key = "%s.%s" % (bname, fname)
-                    if guarded:
-                        chk.ok("R20.7", key, "postfix `%s` - operand passes through %s" % (after[:2], helper.group(1)))
+                    # the guard may be a helper (checked below) or written in place: under is_compound(operand) the text is "(" operand ")", otherwise the operand
+                    fk = fm.group(1) if fm else "?"
+                    pred = [("T" if c[0] == "ne" else "F") for c in st.cond if c[0] in ("eq", "ne") and re.search(r"is_compound\(s\.0\.0\.%s(\.0)*\)" % fk, str(c[1]))]
+                    if re.match(r"^must_use\(format\(Arguments::new_v1\(\['\(', '\)'\], \[Argument::new_display\(sql\(s\.0\.0\.%s\)\.Ok\.0\)\]\)\)\)$" % fk, a_):
+                        shape = "wrapped"
+                    elif re.match(r"^sql\(s\.0\.0\.%s\)\.Ok\.0$" % fk, a_):
+                        shape = "plain"
                     else:
-                        chk.bad("R20.7", key, "%s prints `%s` directly before `%s` with no delimiter: when the operand is `(a) + (b)` or `(x)->>'f'` the postfix binds to its last operand only "
-                                              "(e.g. int(x + y) becomes (x) + (y)::integer)" % (bname, fname, after[:2]), b_.file)
+                        shape = "helper" if guarded else "other"
+                    slot_shapes.setdefault(key, set()).add((tuple(pred), shape))
+                    slot_info[key] = (bname, fname, after[:2], helper.group(1) if guarded else None, b_.file)
             texts.setdefault(bname, []).append((pieces, order))
             want_order = [f for f in fields if f in order]
             if order == want_order and "?" not in order:
@@ -355,6 +378,15 @@ def run(chk, tier):
             for a_ in args:
                 if re.search(r"\brev\(", a_):
                     chk.bad("R20.6", "%s|collection order" % bname, "%s reverses a collection while printing it" % bname, b_.file)
+    for key, shapes_ in sorted(slot_shapes.items()):
+        bname, fname, post_, helper_, file_ = slot_info[key]
+        if shapes_ == {((), "helper")}:
+            chk.ok("R20.7", key, "postfix `%s` - operand passes through %s" % (post_, helper_))
+        elif shapes_ == {(("T",), "wrapped"), (("F",), "plain")}:
+            chk.ok("R20.7", key, "postfix `%s` - compound operands are parenthesised in place" % post_)
+        else:
+            chk.bad("R20.7", key, "%s prints `%s` directly before `%s` with no delimiter: when the operand is `(a) + (b)` or `(x)->>'f'` the postfix binds to its last operand only "
+                                  "(e.g. int(x + y) becomes (x) + (y)::integer)   [%s]" % (bname, fname, post_, sorted(shapes_)), file_)
     chk.floor("R20.6", "operand slots printed by the builders", n_slots, 18)
     # guard helpers have the shape: compound -> "(" text ")" ; else text
     for g in sorted(guards):
